@@ -524,13 +524,22 @@ class ConfigGen:
         rng = self.rng
         kind = rng.choice(["CcAny", "CcAny", "CcXor", "CcXor", "Any", "Xor", "AtMost", "All", "AtLeast"])
         ch = self.leaves(1 if kind in ("All", "AtLeast") else 2)
+        nested = False
+        if kind == "CcAny" and rng.random() < 0.3:
+            # a choice among choices: a defaulted cc.Xor / cc.Any as one of the operands of a (mostly defaulted) cc.Any
+            used = {c["id"] for c in ch}
+            free = [n for n in self.items if n not in used]
+            if len(free) >= 2:
+                ich = [self.leaf(n) for n in rng.sample(free, 2)]
+                inner = {"k": rng.choice(["CcXor", "CcAny"]), "ch": ich, "id": self.fresh(), "default": [rng.choice(ich)["id"]]}
+                ch = ch + [inner]; nested = True
         r = {"k": kind, "ch": ch, "id": self.fresh(force_id)}
         if kind in ("CcAny", "CcXor"):
-            q = rng.random()
+            q = rng.random() if not nested else rng.uniform(0.12, 0.7)
             if q < 0.12 and len(ch) >= 3:
-                r["default"] = [c["id"] for c in rng.sample(ch, 2)]          # a default LIST: only the first entry counts
+                r["default"] = [c["id"] for c in rng.sample([c for c in ch if c["k"] in ("str", "var")], 2)]          # a default LIST: only the first entry counts
             elif q < 0.65:
-                d = rng.choice(ch)["id"]
+                d = rng.choice([c for c in ch if c["k"] in ("str", "var")])["id"]
                 r["default"] = [d if rng.random() < 0.7 else {"id": d, "b": [0, 1]}]
             elif q < 0.75:
                 r["default"] = [rng.choice(self.items)]
